@@ -282,7 +282,22 @@ func main() {
 		die("kv_pebble.go: MemTableSize site found %d times, expected 1", n)
 	}
 	src = re3.ReplaceAllString(src, "MemTableSize: simMemTableSize(),")
+	// snapshot sender/loader go through the engine's file system
+	osRe := regexp.MustCompile(`\bos\.(ReadDir|Stat|Open|OpenFile|RemoveAll|MkdirAll)\(`)
+	fileRe := regexp.MustCompile(`\*os\.File\b`)
+	simName := func(m string) string { return "sim" + m[3:] }
+	src = osRe.ReplaceAllStringFunc(src, simName)
+	src = fileRe.ReplaceAllString(src, "simFile")
 	emit(kvp, src)
+	ksp := filepath.Join(*repo, "server/kv/kv_pebble_snapshot.go")
+	ssrc := pending(ksp)
+	if n := len(osRe.FindAllStringIndex(ssrc, -1)); n < 3 {
+		die("kv_pebble_snapshot.go: only %d os calls found", n)
+	}
+	ssrc = osRe.ReplaceAllStringFunc(ssrc, simName)
+	ssrc = fileRe.ReplaceAllString(ssrc, "simFile")
+	ssrc = strings.Replace(ssrc, "\t\"os\"\n", "\t_ \"os\"\n", 1)
+	emit(ksp, ssrc)
 	// clock seam: the timestamp a leader stamps a new entry with
 	lcp := filepath.Join(*repo, "server/leader_controller.go")
 	lsrc := pending(lcp)
